@@ -15,7 +15,7 @@ from __future__ import annotations
 
 from ..commands import CommandRun
 from ..model import AnalysisError
-from ..traceutil import statements, is_writer_delivery, out_of_scope_exception, chain, decisions_text
+from ..traceutil import statements, is_writer_delivery, out_of_scope_exception, out_of_scope_path, chain, decisions_text
 from ..values import *
 
 TRACKED_OBJECTS = ("g", "state", "bounds")
@@ -80,7 +80,7 @@ def analyse(W, name, f, ctx, desc, path):
         return [("accepted",)]
     P = W.P
     cls = path.value.cls
-    if out_of_scope_exception(P, cls):
+    if out_of_scope_path(P, path):
         return [("oos",)]
     entry = f"{name}({desc})"
     init = _INITIAL.get(id(W))
